@@ -101,7 +101,11 @@ func (e *peval) desc(v ssa.Value, env penv) pdesc {
 	case *ssa.Call:
 		// a module helper that returns a record chosen by the configuration (acceptRule())
 		if g := eng.StaticCallee(x.Common()); g != nil && eng.InModule(g) && len(g.Blocks) > 0 && g.Signature.Results().Len() == 1 {
-			if _, isStruct := g.Signature.Results().At(0).Type().Underlying().(*types.Struct); isStruct {
+			_, isStruct := g.Signature.Results().At(0).Type().Underlying().(*types.Struct)
+			// …or a list chosen by the configuration (the exceptions to the default: RejectDomains
+			// when mail is accepted by default, AcceptDomains when it is not)
+			_, isList := g.Signature.Results().At(0).Type().Underlying().(*types.Slice)
+			if isStruct || isList {
 				nenv := penv{}
 				for i, prm := range g.Params {
 					if i < len(x.Call.Args) {
